@@ -408,7 +408,7 @@ section FullModel
 open H2.Client
 
 /-- **Full.concurrent_streams_obeyed**: in any run (any events: requests, server octets with any SETTINGS, time-outs,
-write failures …), whenever a step writes a HEADERS frame, the number of streams open just before the step
+write failures …), whenever a step writes a frame of a header block (HEADERS whole or cut, CONTINUATION), the number of streams open just before the step
 (`openStreams`) is below the `maxStreams` the connection holds at that moment (the last SETTINGS_MAX_CONCURRENT_STREAMS
 the read loop has applied); the step's event is a request and the connection has seen no GOAWAY -/
 theorem Full.concurrent_streams_obeyed (c : Conn) (h : Init c) (evs : List Event) :
@@ -438,13 +438,25 @@ theorem Full.waiting_streams_below_limit (c : Conn) (h : Init c) (pre : List Eve
   have h2 := Full.counter_covers_table c h pre
   omega
 
-/-- **Full.only_requests_open_streams**: a step that is not a request admitted by `CanOpenStream` writes no HEADERS and
-leaves `nextID` alone; one that is moves `nextID` up by 2 and the HEADERS it writes is its first frame, on the old
-`nextID`, the only HEADERS of the step -/
+/-- **Full.limit_before_every_stream_opening_frame**: the same over "frames that open a stream" — a HEADERS frame with
+END_HEADERS (`.headers`) or without (`.hfrag`, the first frame of a block longer than the server's MAX_FRAME_SIZE): whenever
+a step writes one, `openStreams < maxStreams` held just before, and the streams still waiting are fewer than `maxStreams` -/
+theorem Full.limit_before_every_stream_opening_frame (c : Conn) (h : Init c) (pre : List Event) (e : Event)
+    (hw : opensStream (step (run c pre).1 e).2 = true) :
+    (run c pre).1.openStreams < ((run c pre).1.maxStreams : Int) ∧
+    (run c pre).1.reqQueued.length < (run c pre).1.maxStreams :=
+  ⟨Full.concurrent_streams_obeyed_at c h pre e (opensStream_writes hw),
+   Full.waiting_streams_below_limit c h pre e (opensStream_writes hw)⟩
+
+/-- **Full.only_requests_open_streams**: a step that is not a request admitted by `CanOpenStream` writes no frame of a
+header block (HEADERS whole or cut, CONTINUATION) and leaves `nextID` alone; one that is moves `nextID` up by 2 and what it
+writes begins with the frames of ONE header block on the old `nextID` (`headerFrames`: a HEADERS frame, or a HEADERS frame
+without END_HEADERS followed at once by its CONTINUATION frames); nothing else written belongs to a header block -/
 theorem Full.only_requests_open_streams (c : Conn) (h : Init c) (pre : List Event) (e : Event) :
     ((step (run c pre).1 e).1.nextID = (run c pre).1.nextID ∧ writesHeaders (step (run c pre).1 e).2 = false) ∨
     (∃ r, e = .req r ∧ canOpenStream (run c pre).1 = true ∧ (step (run c pre).1 e).1.nextID = (run c pre).1.nextID + 2 ∧
-      ∀ fs, (step (run c pre).1 e).2 = .frames fs → ∃ rest, fs = wrHeaders (run c pre).1 r :: rest ∧ NoHdr rest) := by
+      ∀ fs, (step (run c pre).1 e).2 = .frames fs →
+        ∃ blk rest, fs = blk ++ rest ∧ BlockOf (run c pre).1.nextID (wrEndStream r) (requestFields r) blk ∧ NoHdr rest) := by
   have hi := run_hinv (init_hinv h) pre
   rcases step_frames_spec _ hi.inv hi.outQ e with ⟨hn, hf⟩ | ⟨r, he, hc, _, hn, hf⟩
   · left
@@ -453,6 +465,14 @@ theorem Full.only_requests_open_streams (c : Conn) (h : Init c) (pre : List Even
     | frames fs => exact noHdr_any (hf fs ho)
     | _ => rfl
   · right; exact ⟨r, he, hc, hn, hf⟩
+
+/-- **Full.continuations_contiguous**: in the output of every step of every run, each CONTINUATION frame directly follows
+a HEADERS frame without END_HEADERS or a CONTINUATION frame of the same stream: nothing is written between the frames of a
+header block -/
+theorem Full.continuations_contiguous (c : Conn) (h : Init c) (pre : List Event) (e : Event) (fs : List OutFrame)
+    (ho : (step (run c pre).1 e).2 = .frames fs) : contAfter none fs = true :=
+  let hi := run_hinv (init_hinv h) pre
+  step_contiguous _ hi.inv hi.outQ e fs ho
 
 /-! ### non-vacuity: SETTINGS_MAX_CONCURRENT_STREAMS = 1, two requests -/
 
@@ -470,6 +490,26 @@ example : (run {} fullRun).2.map writesHeaders = [false, true, false, false] ∧
     (run {} (fullRun.take 1)).1.maxStreams = 1 ∧ (run {} (fullRun.take 1)).1.openStreams = 0 ∧
     (run {} (fullRun.take 2)).1.openStreams = 1 ∧
     (getReq (run {} (fullRun.take 3)).1 "b").map (·.errBuf) = some (some .noStreams) := by decide +kernel
+
+/-- kind, stream, fragment length of the frames of an output: 1 HEADERS, 2 HEADERS without END_HEADERS, 3 CONTINUATION -/
+def fullKinds : StepOut → List (Nat × Nat × Nat)
+  | .frames fs => fs.map fun f => match f with
+    | .headers sid _ _ => (1, sid, 0) | .hfrag sid _ l => (2, sid, l) | .cont sid _ l _ => (3, sid, l) | _ => (0, 0, 0)
+  | _ => []
+
+/-- a connection whose server allows frames of 4 octets only (`Init` says nothing about MAX_FRAME_SIZE): every header
+block is cut -/
+def fullTiny : Conn := { maxFrameSize := 4 }
+
+example : Init fullTiny := by constructor <;> rfl
+
+/-- two requests: blocks of 9 and 5 octets go out as HEADERS(4) + CONTINUATION(4) + CONTINUATION(1) on stream 1 and
+HEADERS(4) + CONTINUATION(1) on stream 3; both outputs open a stream and their CONTINUATIONs are contiguous -/
+example : (run fullTiny [.req (fullReq "a"), .req (fullReq "b")]).2.map fullKinds =
+      [[(2, 1, 4), (3, 1, 4), (3, 1, 1)], [(2, 3, 4), (3, 3, 1)]] ∧
+    (run fullTiny [.req (fullReq "a"), .req (fullReq "b")]).2.map opensStream = [true, true] ∧
+    (run fullTiny [.req (fullReq "a"), .req (fullReq "b")]).2.map
+      (fun o => match o with | .frames fs => contAfter none fs | _ => true) = [true, true] := by decide +kernel
 
 end FullModel
 
